@@ -130,6 +130,7 @@ def split_clauses(sig):
     lines = sig.split('\n')
 
     cur_col = [None]
+    adepth = [0]
 
     def flush(end_line):
         nonlocal cur, cur_start
@@ -181,7 +182,12 @@ def split_clauses(sig):
                 depth += 1
             elif ch in ')]}':
                 depth -= 1
-            if ch == ',' and depth == 0:
+            # generic arguments of a turbofish (`f::<A, B>(..)`, `Map::<K, V>::empty()`) are not clause separators
+            elif ch == '<' and (adepth[0] > 0 or code_part[max(0, ci - 2):ci] == '::'):
+                adepth[0] += 1
+            elif ch == '>' and adepth[0] > 0 and code_part[max(0, ci - 1):ci] not in ('-', '='):
+                adepth[0] -= 1
+            if ch == ',' and depth == 0 and adepth[0] == 0:
                 cur.append(buf)
                 if cur_start is None:
                     cur_start = li
